@@ -422,7 +422,7 @@ def shard(ctx: Ctx, sh: int, nshards: int, n: int) -> Stats:
             for sig, det in fails:
                 st.fail(sig, case, det)
 
-        drive(strategy(), one, ctx.shard_seed(sh, 91), n)
+        drive(strategy(), one, ctx.shard_seed(sh, 91), n, chunk=100)  # (a document plus request picks: ~15 MB of Hypothesis state per example)
     return st
 
 
